@@ -14,8 +14,9 @@ import (
 )
 
 const (
-	mgrWorkers = 6
-	chunkSize  = 50
+	mgrWorkers     = 6
+	chunkSize      = 50
+	maxProblemRuns = 8 // per chunk
 )
 
 // replayCase extracts {"case": {"level": ..., "index": ...}} / {"history": ...}
@@ -78,6 +79,7 @@ type chunkResult struct {
 	Samples  []chunkSample            `json:"samples"`
 	Stats    map[string]int           `json:"stats"`
 	Problems []string                 `json:"problems"`
+	Aborted  bool                     `json:"aborted"`
 }
 
 type chunkSample struct {
@@ -180,6 +182,18 @@ func processChunk(spec chunkSpec) *chunkResult {
 		}()
 	}
 	for i := spec.From; i < spec.To; i++ {
+		acc.mu.Lock()
+		bad := len(acc.res.Problems)
+		acc.mu.Unlock()
+		if bad >= maxProblemRuns {
+			// every problem run costs a watchdog; a library that breaks most runs must
+			// not turn the whole check into a driver timeout
+			acc.mu.Lock()
+			acc.res.Aborted = true
+			acc.res.Problems = append(acc.res.Problems, fmt.Sprintf("chunk %d..%d abandoned at scenario %d after %d problem runs", spec.From, spec.To, i, bad))
+			acc.mu.Unlock()
+			break
+		}
 		jobs <- i
 	}
 	close(jobs)
@@ -329,18 +343,18 @@ func runMgr(c *mon.Ctx, prop, stream string, n, maxEvents int, natural bool, cra
 			specs = append(specs, mk(from, to))
 		}
 	}
-	round := 0
+	aborted := 0
 	for len(specs) > 0 {
-		var inputs [][]byte
-		for _, s := range specs {
-			b, _ := json.Marshal(s)
-			inputs = append(inputs, b)
+		spec := specs[0]
+		specs = specs[1:]
+		if aborted >= 2 {
+			c.Inconclusive(fmt.Sprintf("manager level stopped early: 2 chunks abandoned, scenarios from %d on not run", spec.From))
+			break
 		}
-		outs := mon.RunBatch(c, "mgr", fmt.Sprintf("%s-%d", prop, round), inputs, mon.BatchOpts{Timeout: 25 * time.Minute, MemLimitMB: 8192})
-		round++
+		b, _ := json.Marshal(spec)
+		outs := mon.RunBatch(c, "mgr", fmt.Sprintf("%s-%d-%d", prop, spec.From, spec.To), [][]byte{b}, mon.BatchOpts{Timeout: 25 * time.Minute, MemLimitMB: 8192})
 		var retry []chunkSpec
-		for i, o := range outs {
-			spec := specs[i]
+		for _, o := range outs {
 			if o.Class != "ok" {
 				if spec.To-spec.From > 1 {
 					// attribute the crash: re-run this chunk one scenario per child input
@@ -365,6 +379,9 @@ func runMgr(c *mon.Ctx, prop, stream string, n, maxEvents int, natural bool, cra
 				continue
 			}
 			c.Eval(res.Evals)
+			if res.Aborted {
+				aborted++
+			}
 			for _, p := range res.Problems {
 				c.Inconclusive(p)
 			}
@@ -389,7 +406,7 @@ func runMgr(c *mon.Ctx, prop, stream string, n, maxEvents int, natural bool, cra
 				stats[k] += v
 			}
 		}
-		specs = retry
+		specs = append(retry, specs...)
 	}
 	keys := make([]string, 0, len(stats))
 	for k := range stats {
